@@ -114,6 +114,15 @@ CHECKS["C15"] = ("grammar-based property-based testing (Hypothesis) with an inde
             "path whose keywords the translator skips.",
             "Trusted: jsonschema 4.26 (Draft 2020-12) as the meaning of the schema; utype.JSONEncoder for publishing outputs.", "3/C15")
 
+CHECKS["C07"] = ("model-based property-based testing (Hypothesis) over generated operation histories: every public mutator of dict-based and attribute-based data class instances, reference model of documented refusals, invariants checked after every step",
+            "hypothesis",
+            "Exploration: histories of up to 12 operations (setattr, delattr, item set/delete, update (mapping/keywords), pop, popitem, setdefault, clear, |=, copy + mutation of the copy) "
+            "with valid / convertible / invalid / wrong-kind arguments and attribute names, aliases, case variants and unknown keys, on a curated class family (required, optional, "
+            "constrained, aliased, immutable, case-insensitive, no_output, on_error=exclude, constrained list, dependent @property) for Schema, DataClass and @dataclass; after every "
+            "step: conformance of every present value, required present, immutable unchanged, key view == attribute view, dependent property recomputed, failed single-key operations "
+            "leave no trace, documented refusals happen, the original is untouched by its copy.",
+            "Trusted: the reference model in vf/checks/c07.py (refusal rules from docs/en/references/field.md, options.md); element validity via utype.type_transform on the field type alone.", "3/C07")
+
 NOT_YET = "check not built yet in this round (planned, see DESIGN.md section 3)"
 
 
